@@ -4,6 +4,7 @@ import SurfProofs.Lemmas.SixelTable
 import SurfProofs.Lemmas.SixelDecode
 import SurfProofs.Lemmas.SixelOrder
 import SurfProofs.Lemmas.SixelCache
+import SurfProofs.Lemmas.SixelQuant
 /-!
 # C12 — sixel output decodes to the quantised image, exact when colours fit the palette
 
@@ -11,11 +12,13 @@ import SurfProofs.Lemmas.SixelCache
 index image `q` returned by quantisation when the per-band hash maps iterate in `order`;
 `sixel` is the reference interpreter written from the sixel specification (it shares no definition with
 the encoder).  The theorems below are about *every* palette, index image and iteration order.
+`C12_exact` takes the losslessness of quantisation as a hypothesis; `C12_exact_quant` composes the model of
+`Image::quantize` (`SurfModel.Quant`, property C13) in front of the encoder and has no such hypothesis.
 -/
 namespace SurfProofs.C12
 open SurfModel.Sixel SurfModel.Generated.SixelLevel
 open SurfProofs.Lemmas.SixelLine SurfProofs.Lemmas.SixelTable SurfProofs.Lemmas.SixelDecode
-open SurfProofs.Lemmas.SixelOrder SurfProofs.Lemmas.SixelCache
+open SurfProofs.Lemmas.SixelOrder SurfProofs.Lemmas.SixelCache SurfProofs.Lemmas.SixelQuant
 
 /-- a colour at sixel's 0-100 resolution: every channel `100·v/255` rounded to the nearest integer -/
 def at100 (c : RGB) : RGB := ⟨level100 c.r, level100 c.g, level100 c.b⟩
@@ -116,8 +119,9 @@ def C13_lossless (w h : Nat) (dimg : Nat → Nat → RGB) (pal : List RGB) (q : 
 multiple of six rows) with at most 256 distinct colours at 0-100 resolution, small enough not to be
 subsampled; let `(pal, q)` be what quantisation returns for the channel-reduced image `preReduce ∘ src`
 that `draw` hands to it, quantisation being lossless in that case (hypothesis `C13_lossless`, the
-theorem of that name of property C13).  Then for every iteration order the emitted bytes decode to the
-source at 0-100 resolution, pixel for pixel. -/
+theorem of that name of property C13; discharged for the model of the quantiser in `C12_quant_lossless`,
+giving the unconditional `C12_exact_quant` below).  Then for every iteration order the emitted bytes
+decode to the source at 0-100 resolution, pixel for pixel. -/
 theorem C12_exact (w h : Nat) (src : Nat → Nat → RGB) (pal : List RGB) (q : QImg) (order : Nat → List Nat)
     (hsrc : ∀ y x, y < h → x < w → (src y x).r < 256 ∧ (src y x).g < 256 ∧ (src y x).b < 256)
     (hfit : AtMostColours 256 w h (fun y x => at100 (src y x)))
@@ -167,6 +171,98 @@ example :
     have hy' : y = 0 ∨ y = 1 ∨ y = 2 ∨ y = 3 ∨ y = 4 ∨ y = 5 := by omega
     have hx' : x = 0 ∨ x = 1 := by omega
     rcases hy' with h | h | h | h | h | h <;> rcases hx' with h' | h' <;> subst h <;> subst h' <;> rfl
+
+/-! ## exactness with the quantiser composed in
+
+The two theorems below discharge the hypothesis `C13_lossless` of `C12_exact` with property C13's
+theorem `SurfProofs.C13.C13_lossless` about `SurfModel.Quant.quantize`, the model of `Image::quantize`
+(octree palette extraction `ColorPalette::from_image`, k-d tree lookup, Floyd-Steinberg loop).  `draw`
+calls `dimg.quantize(256, true, self.bg)`: palette size 256, dithering on; the dithering case of the C13
+theorem is the one used (all error terms are zero when every pixel's colour is in the palette).
+
+Glue between the two models (`SurfProofs.Lemmas.SixelQuant`):
+* `toQ` / `ofQ` convert between the colour records of the two models (same three `Nat` fields);
+* `rowMajor w h f` lists the pixels `f row col` of a `w × h` image row by row (`Surface::iter` order, the
+  argument of the quantiser model);
+* `qimgOf w h is` is the index image `⟨w, h, rows⟩` with the index list `is` cut into `h` rows of `w`
+  (`qimg.set(Position::new(row, col), qindex)` in the loop of `quantize`);
+* for opaque pixels (`alpha = 255`) `quantize` and `from_image` skip `bg.blend_over`, so the composited
+  pixels the quantiser model takes are the pixels themselves;
+* C12's subsampling bound `w·h / (256·100) < 2` is C13's `h·w < 200·k` at `k = 256`, and implies
+  C13's `h·w < 2^64`; `AtMostColours 256` gives C13's "every duplicate-free list of colours occurring in
+  the image has at most 256 entries" (a duplicate-free sublist of a list is no longer than it). -/
+
+/-- `C13_lossless` holds of what the model of `quantize(256, dither = true)` returns: for every non-empty
+opaque 8-bit image `dimg` of size `w × h`, `h` a multiple of six, with at most 256 distinct colours and
+not subsampled, the model answers `ok pal is`, and the pair `(pal, qimgOf w h is)` satisfies the statement
+that `C12_exact` takes as a hypothesis. -/
+theorem C12_quant_lossless (w h : Nat) (dimg : Nat → Nat → RGB)
+    (hw : 0 < w) (hh : 0 < h) (h6 : h % 6 = 0)
+    (hbytes : ∀ y x, y < h → x < w → (dimg y x).r < 256 ∧ (dimg y x).g < 256 ∧ (dimg y x).b < 256)
+    (hfit : AtMostColours 256 w h dimg) (hsmall : w * h / (256 * 100) < 2) :
+    ∃ pal is,
+      SurfModel.Quant.quantize (rowMajor w h fun y x => toQ (dimg y x)) h w 256 true = .ok pal is
+      ∧ C13_lossless w h dimg (pal.map ofQ) (qimgOf w h is) := by
+  obtain ⟨pal, is, hq, hlen, hcol, hok, hrep⟩ := quant_lossless_sixel w h dimg hw hh h6 hbytes hfit hsmall
+  exact ⟨pal, is, hq, fun _ _ => ⟨hlen, hcol, hok, rfl, rfl, hrep⟩⟩
+
+/-- `C12_exact_quant`: `C12_exact` with no hypothesis about quantisation.  Let `src` be an opaque 8-bit
+image of size `w × h`, non-empty, `h` a multiple of six (the view `draw` truncates to), with at most 256
+distinct colours at 0-100 resolution and small enough not to be subsampled by the palette extraction
+(`w·h / 25600 < 2`).  Then the model of `Image::quantize(256, dither = true)` applied to the
+channel-reduced image `preReduce ∘ src` (what `draw` hands to it) answers `ok pal is` — no panic, no
+`None`, no inexact dithering —, and for every iteration order of the band maps the bytes the encoder
+model emits for that palette and index image are accepted by the reference interpreter and decode to the
+source at 0-100 resolution, pixel for pixel, with nothing painted outside. -/
+theorem C12_exact_quant (w h : Nat) (src : Nat → Nat → RGB)
+    (hw : 0 < w) (hh : 0 < h) (h6 : h % 6 = 0)
+    (hsrc : ∀ y x, y < h → x < w → (src y x).r < 256 ∧ (src y x).g < 256 ∧ (src y x).b < 256)
+    (hfit : AtMostColours 256 w h (fun y x => at100 (src y x)))
+    (hsmall : w * h / (256 * 100) < 2) :
+    ∃ pal is,
+      SurfModel.Quant.quantize (rowMajor w h fun y x => toQ (preReduce (src y x))) h w 256 true = .ok pal is
+      ∧ ∀ order : Nat → List Nat, OrderOk (qimgOf w h is) order →
+        ∃ r, sixel (encode (pal.map ofQ) (qimgOf w h is) order) = some r
+          ∧ r.width = w ∧ r.height = h ∧ r.outside = 0
+          ∧ ∀ y x, y < h → x < w → r.get x y = some (at100 (src y x)) := by
+  have hpre : ∀ c : RGB, c.r < 256 ∧ c.g < 256 ∧ c.b < 256 →
+      preReduce c = ⟨level100 c.r * 255 / 100, level100 c.g * 255 / 100, level100 c.b * 255 / 100⟩ := by
+    intro c hc
+    obtain ⟨hr, hg, hb⟩ := level_table
+    simp only [preReduce, preChannel, hr, hg, hb, table_getD, hc.1, hc.2.1, hc.2.2, if_true]
+  have hlt : ∀ v, v < 256 → level100 v * 255 / 100 < 256 := by
+    intro v hv; unfold level100; omega
+  have hbytes : ∀ y x, y < h → x < w →
+      (preReduce (src y x)).r < 256 ∧ (preReduce (src y x)).g < 256 ∧ (preReduce (src y x)).b < 256 := by
+    intro y x hy hx
+    have hs := hsrc y x hy hx
+    rw [hpre _ hs]
+    exact ⟨hlt _ hs.1, hlt _ hs.2.1, hlt _ hs.2.2⟩
+  have hfit' : AtMostColours 256 w h (fun y x => preReduce (src y x)) := by
+    obtain ⟨cl, hlen, hmem⟩ := hfit
+    refine ⟨cl.map (fun l => ⟨l.r * 255 / 100, l.g * 255 / 100, l.b * 255 / 100⟩), by simpa using hlen, ?_⟩
+    intro y x hy hx
+    simp only [List.mem_map]
+    exact ⟨at100 (src y x), hmem y x hy hx, by rw [hpre _ (hsrc y x hy hx)]; rfl⟩
+  obtain ⟨pal, is, hq, hC13⟩ :=
+    C12_quant_lossless w h (fun y x => preReduce (src y x)) hw hh h6 hbytes hfit' hsmall
+  exact ⟨pal, is, hq, fun order hord =>
+    C12_exact w h src (pal.map ofQ) (qimgOf w h is) order hsrc hfit hsmall hC13 hord⟩
+
+/-- the domain conditions of `C12_exact_quant` are met, e.g., by the 2 × 6 two-colour image of the example
+above; and for every image in the domain an admissible order exists (colours ascending in every band) -/
+example :
+    let src : Nat → Nat → RGB := fun y x => if (x + y) % 2 = 0 then ⟨255, 128, 3⟩ else ⟨10, 200, 90⟩
+    0 < 2 ∧ 0 < 6 ∧ 6 % 6 = 0
+      ∧ (∀ y x, y < 6 → x < 2 → (src y x).r < 256 ∧ (src y x).g < 256 ∧ (src y x).b < 256)
+      ∧ AtMostColours 256 2 6 (fun y x => at100 (src y x)) ∧ 2 * 6 / (256 * 100) < 2
+      ∧ ∀ is, OrderOk (qimgOf 2 6 is) (sortedOrder (qimgOf 2 6 is)) := by
+  intro src
+  refine ⟨by decide, by decide, by decide, ?_,
+    ⟨[at100 ⟨255, 128, 3⟩, at100 ⟨10, 200, 90⟩], by decide, ?_⟩, by decide,
+    fun is => sortedOrder_ok _ (by simp [qimgOf])⟩
+  · intro y x _ _; simp only [src]; split <;> decide
+  · intro y x _ _; simp only [src]; split <;> simp
 
 /-! ## drawing the same image again -/
 
